@@ -60,6 +60,18 @@ def _move_before(parent: Element, nodes: List[Element], target: Optional[Element
         insert_node(parent=parent, node=node, index=i)
 
 
+def _swap(parent: Element, node1: Element, node2: Element):
+    "Exchange the positions of two children of *parent*"
+    (lo_index, lo), (hi_index, hi) = sorted(
+        [(_index_of(parent, node1), node1), (_index_of(parent, node2), node2)],
+        key=lambda pair: pair[0]
+    )
+    remove_node(parent=parent, node=hi)
+    remove_node(parent=parent, node=lo)
+    insert_node(parent=parent, node=hi, index=lo_index)
+    insert_node(parent=parent, node=lo, index=hi_index)
+
+
 @total_ordering
 class MosFile:
     """
@@ -1769,6 +1781,10 @@ class EAStorySwap(ElementAction):
         """
         Merge into the :class:`RunningOrder` object provided.
         """
+        if len(self.stories) != 2:
+            raise MosMergeError(
+                f"{self.__class__.__name__} error in {self.message_id} - exactly two stories are required"
+            )
         source_story_1, source_story_2 = self.stories
         story1, story1_index = _find_by_id(ro.base_tag, 'story', source_story_1.id)
         if story1 is None:
@@ -1780,10 +1796,11 @@ class EAStorySwap(ElementAction):
             raise MosMergeError(
                 f"{self.__class__.__name__} error in {self.message_id} - story 2 not found"
             )
-        remove_node(parent=ro.base_tag, node=story1)
-        remove_node(parent=ro.base_tag, node=story2)
-        insert_node(parent=ro.base_tag, node=story2, index=story1_index)
-        insert_node(parent=ro.base_tag, node=story1, index=story2_index)
+        if story1 is story2:
+            raise MosMergeError(
+                f"{self.__class__.__name__} error in {self.message_id} - cannot swap a story with itself"
+            )
+        _swap(ro.base_tag, story1, story2)
         return ro
 
     def inspect(self):
@@ -1842,6 +1859,10 @@ class EAItemSwap(ElementAction):
             raise MosMergeError(
                 f"{self.__class__.__name__} error in {self.message_id} - story not found"
             )
+        if len(self.items) != 2:
+            raise MosMergeError(
+                f"{self.__class__.__name__} error in {self.message_id} - exactly two items are required"
+            )
         source_item_1, source_item_2 = self.items
         item1, item1_index = _find_by_id(story, 'item', source_item_1.id)
         if item1 is None:
@@ -1853,10 +1874,11 @@ class EAItemSwap(ElementAction):
             raise MosMergeError(
                 f"{self.__class__.__name__} error in {self.message_id} - item 2 not found"
             )
-        remove_node(parent=story, node=item1)
-        remove_node(parent=story, node=item2)
-        insert_node(parent=story, node=item2, index=item1_index)
-        insert_node(parent=story, node=item1, index=item2_index)
+        if item1 is item2:
+            raise MosMergeError(
+                f"{self.__class__.__name__} error in {self.message_id} - cannot swap an item with itself"
+            )
+        _swap(story, item1, item2)
         return ro
 
     def inspect(self):
